@@ -59,6 +59,13 @@ pub struct Case {
     pub chunk: usize,
     /// run on a multi-threaded runtime with real time instead of the paused clock
     pub multi_thread: bool,
+    /// the sending link's initial delivery-count (client senders only): 0, or a few below 2^32
+    pub initial_dc: u32,
+    /// per message: the application polls `recv` this many times and drops the future (a `select!` that
+    /// took another branch, a time-out) before it calls `recv` for good; 0 = never
+    pub recv_drop: Vec<u8>,
+    /// the receiving link (client receivers only) accepts every delivery itself as `recv` returns it
+    pub auto_accept: bool,
 }
 
 impl Case {
@@ -66,7 +73,7 @@ impl Case {
         json!({"client_sends": self.client_sends, "sizes": self.sizes, "bodies": self.bodies, "sections": self.sections, "client_max_frame": self.client_max_frame, "listener_max_frame": self.listener_max_frame,
             "client_windows": [self.client_windows.0, self.client_windows.1], "listener_windows": [self.listener_windows.0, self.listener_windows.1], "client_buffer": self.client_buffer,
             "listener_buffer": self.listener_buffer, "auto_credit": self.auto_credit, "manual_credit": self.manual_credit, "snd_mode": self.snd_mode, "rcv_second": self.rcv_second,
-            "max_message_size": self.max_message_size, "batchable": self.batchable, "send_pause": self.send_pause, "recv_pause": self.recv_pause, "chunk": self.chunk, "multi_thread": self.multi_thread})
+            "max_message_size": self.max_message_size, "batchable": self.batchable, "send_pause": self.send_pause, "recv_pause": self.recv_pause, "chunk": self.chunk, "multi_thread": self.multi_thread, "initial_dc": self.initial_dc, "recv_drop": self.recv_drop, "auto_accept": self.auto_accept})
     }
     pub fn from_json(j: &J) -> Option<Case> {
         let v8 = |k: &str| -> Option<Vec<u8>> { Some(j.get(k)?.as_array()?.iter().filter_map(|x| x.as_u64().map(|v| v as u8)).collect()) };
@@ -95,6 +102,9 @@ impl Case {
             recv_pause: v8("recv_pause")?,
             chunk: j.get("chunk")?.as_u64()? as usize,
             multi_thread: j.get("multi_thread").and_then(|x| x.as_bool()).unwrap_or(false),
+            initial_dc: j.get("initial_dc").and_then(|x| x.as_u64()).unwrap_or(0) as u32,
+            recv_drop: v8("recv_drop").unwrap_or_default(),
+            auto_accept: j.get("auto_accept").and_then(|x| x.as_bool()).unwrap_or(false),
         })
     }
 }
@@ -124,6 +134,9 @@ pub fn gen_case(rng: &mut Rng, multi_thread: bool) -> Case {
         recv_pause: (0..n).map(|_| *rng.pick(&[0u8, 0, 0, 1, 7])).collect(),
         chunk: *rng.pick(&[0usize, 0, 1, 7, 100, 4000]),
         multi_thread,
+        initial_dc: *rng.pick(&[0u32, 0, 0, 0xFFFF_FFFF, 0xFFFF_FFFE, 0xFFFF_FFFB]),
+        auto_accept: rng.chance(1, 3),
+        recv_drop: if rng.chance(1, 3) { (0..n).map(|_| *rng.pick(&[0u8, 0, 1, 1, 2, 3])).collect() } else { vec![0; n] },
     }
 }
 
@@ -284,12 +297,27 @@ async fn receiver_side(mut r: Receiver, case: Case) -> (Vec<Vec<u8>>, Vec<String
             }
             credit_left = case.manual_credit;
         }
-        match tokio::time::timeout(Duration::from_secs(60), r.recv::<Body<Value>>()).await {
+        // an application that gives up on a `recv` (polled a few times, then dropped) and asks again; if
+        // such an attempt happens to complete, its delivery counts
+        let mut early = None;
+        let drops = case.recv_drop.get(k).copied().unwrap_or(0);
+        if drops > 0 {
+            if let Some(x) = crate::cancel::poll_n(r.recv::<Body<Value>>(), drops as u32).await {
+                early = Some(x);
+            }
+        }
+        let res = match early {
+            Some(x) => Ok(x),
+            None => tokio::time::timeout(Duration::from_secs(60), r.recv::<Body<Value>>()).await,
+        };
+        match res {
             Ok(Ok(d)) => {
                 got.push(encoded(d.message()));
                 credit_left = credit_left.saturating_sub(1);
-                if let Err(e) = r.accept(&d).await {
-                    notes.push(format!("accept {}: {:?}", k, e));
+                if !r.auto_accept() {
+                    if let Err(e) = r.accept(&d).await {
+                        notes.push(format!("accept {}: {:?}", k, e));
+                    }
                 }
             }
             Ok(Err(e)) => {
@@ -359,12 +387,12 @@ async fn scenario(case: Case) -> Result<Observed, String> {
         let mut conn = Connection::builder().container_id("client").max_frame_size(cc.client_max_frame).buffer_size(cc.client_buffer).open_with_stream(cio).await.map_err(|e| format!("open: {:?}", e))?;
         let mut session = Session::builder().incoming_window(cc.client_windows.0).outgoing_window(cc.client_windows.1).buffer_size(cc.client_buffer).begin(&mut conn).await.map_err(|e| format!("begin: {:?}", e))?;
         let out: (Vec<Vec<u8>>, Vec<String>, Vec<String>) = if cc.client_sends {
-            let s = Sender::builder().name("l").target("q").sender_settle_mode(snd_mode).attach(&mut session).await.map_err(|e| format!("attach: {:?}", e))?;
+            let s = Sender::builder().name("l").target("q").sender_settle_mode(snd_mode).initial_delivery_count(cc.initial_dc).attach(&mut session).await.map_err(|e| format!("attach: {:?}", e))?;
             let (res, s) = sender_side(s, cc.clone()).await;
             let _ = tokio::time::timeout(Duration::from_secs(5), s.close()).await;
             (vec![], vec![], res)
         } else {
-            let mut b = Receiver::builder().name("l").source("q").receiver_settle_mode(rcv_mode).credit_mode(if cc.auto_credit == 0 { CreditMode::Manual } else { CreditMode::Auto(cc.auto_credit) });
+            let mut b = Receiver::builder().name("l").source("q").auto_accept(cc.auto_accept).receiver_settle_mode(rcv_mode).credit_mode(if cc.auto_credit == 0 { CreditMode::Manual } else { CreditMode::Auto(cc.auto_credit) });
             if cc.max_message_size > 0 {
                 b = b.max_message_size(cc.max_message_size);
             }
